@@ -583,7 +583,18 @@ def check_C02(tier, seed):
                                   ctx=(rng.choice([1, 2, 3, 4, 5]) if (ctx and st == 0) else (rng.choice([0, 1, 2]) if (ctx and st == 1) else 0)), tag='x')
             cross.append(e)
     entries += cross
-    res, work = prun.run(entries, 'C02', design_L=L if tier == 'quick' else 5, do_product=True, design_only={e.gid for e in entries if e not in cross},
+    # term values that are LEXEMES of regex terms (the value handed to a term's functor is the longest lexeme its pattern
+    # denotes at that place): token-list parsers over terms with '+' / '*' over groups, alternatives and optional tails
+    import lx as lxl
+    lexes = []
+    for li, ts in enumerate([[lxl.R('(a|b)+'), lxl.C(',')], [lxl.R('(ab|c)+'), lxl.C(',')], [lxl.R('(ab?)+'), lxl.C(',')], [lxl.R('[a-c](_?[a-c0-9])+'), lxl.C('=')]]):
+        el = pipeline.lex_entry('c02lex%d' % li, ts)
+        al = [ord(c) for c in ('ab, ' if li == 0 else 'abc, ' if li == 1 else 'ab, ' if li == 2 else 'a_0= ')]
+        lins = [sx for sx in gram.all_strings(al, 5)][:1500 if tier == 'quick' else 4000] + [list(b'ab ba'), list(b'bb abba'), list(b'cab abcc'), list(b'abab,aab'), list(b'a_b0=c__a')]
+        pipeline.add_jobs(el, lins, verbose=False)
+        lexes.append(el)
+    entries += lexes
+    res, work = prun.run(entries, 'C02', design_L=L if tier == 'quick' else 5, do_product=True, design_only={e.gid for e in entries if e not in cross and e not in lexes},
                          tlc_procs=4 if tier == 'quick' else 8, tlc_workers=4 if tier == 'quick' else 2)
     if res.design_errors:
         raise Infra('the specification itself fails its oracles: ' + json.dumps(res.design_errors)[:3000])
@@ -731,6 +742,8 @@ def check_C10(tier, seed):
         ('kw_prefix', [lxl.S('ab'), lxl.S('abcd'), lxl.R('[c-z]')], 'abcx abcd\nabc\nab'),
         ('multiline', [lxl.S('a\nb'), lxl.C('a'), lxl.C('b'), lxl.C('\n')], 'a\nb a\na\nb\nb'),
         ('strlit', [lxl.R('"[^"]*"'), lxl.R('[a-z]+')], 'x "a\nb\n" y "" "z'),
+        # string terms whose text ENDS in a line feed (a continuation mark, CR LF as a term): the next term is on the next line
+        ('linecont', [lxl.S('\\\n'), lxl.R('[a-z]+'), lxl.S('\r\n')], 'ab\\\ncd ef\\\n\\\nx\r\ny \\\n?'),
         # bytes >= 0x80 inside lexemes (every byte but the newline advances the column by one: no notion of code points)
         ('highbytes', [lxl.R('"[^"]*"'), lxl.R('[a-z]+'), lxl.R('[\\x80-\\xff]+')], 'x "\x80\xbf\xc3\xa9" y \xe2\x82\xac z\n"\xbf" q'),
     ]
@@ -811,7 +824,16 @@ def check_C08(tier, seed):
         for (ws, nl) in ((1, 0), (0, 1), (0, 0)):
             pipeline.add_jobs(e, oins, verbose=True, ws=ws, nl=nl, tag='o%d%d_' % (ws, nl))
     entries.append(ebig)
-    res, work = prun.run(entries, 'C08', design_L=4 if tier == 'quick' else 5, do_product=True, design_only={e.gid for e in entries if e is not ebig},
+    # recovery over MULTI-character lexemes (a number, a two-character separator): what is discarded is whole terms - the rest
+    # of a discarded lexeme is never lexed again
+    import lx as lxl
+    elex = pipeline.lex_entry('c08lexerr', [lxl.R('[1-9][0-9]*'), lxl.C('+'), lxl.S(';;'), lxl.C(';')], 'errstmt')
+    lins = [sx for sx in gram.all_strings([ord(c) for c in '10+; '], 5)][:2500 if tier == 'quick' else 8000]
+    lins += [list(b'1; + 10; 2;'), list(b'1 ;; + 100 ;; 20;'), list(b'+ 10'), list(b'+ ;;;'), list(b'7;34; + 1000;;;')]
+    pipeline.add_jobs(elex, lins, verbose=True)
+    pipeline.add_jobs(elex, lins[::7], verbose=False)
+    entries.append(elex)
+    res, work = prun.run(entries, 'C08', design_L=4 if tier == 'quick' else 5, do_product=True, design_only={e.gid for e in entries if e is not ebig and e is not elex},
                          tlc_procs=4 if tier == 'quick' else 8, tlc_workers=4 if tier == 'quick' else 2)
     if res.design_errors:
         raise Infra('the specification itself fails its invariants: ' + json.dumps(res.design_errors)[:3000])
@@ -1450,6 +1472,12 @@ def check_C17(tier, seed):
     for v in range(256):
         for t in ([A, v], [v, A], [A, v, B], [ord('('), A, v], [ord('['), v, ord(']')], [ord('['), A, ord('-'), v, ord(']')], [ord('\\'), v], [A, ord('{'), v, ord('}')]):
             jobs.append(('t%d' % len(jobs), t, []))
+        # ... and in every place of a character set: start of a range, second member, start of a second range, behind '^',
+        # against an escaped other end
+        LB, RB, DASH, TIL, X = ord('['), ord(']'), ord('-'), ord('~'), ord('x')
+        for t in ([LB, v, DASH, TIL, RB], [LB, X, v, RB], [LB, X, v, DASH, TIL, RB], [LB, ord('^'), v, DASH, TIL, RB], [LB, ord('^'), X, v, RB],
+                  [LB, v, DASH, ord('\\'), ord('x'), ord('7'), ord('e'), RB], [LB, ord('\\'), ord('x'), ord('0'), ord('1'), DASH, v, RB], [LB, A, DASH, B, v, RB]):
+            jobs.append(('t%d' % len(jobs), t, []))
     for ptxt in ('a*', 'a+b', 'a?', '(ab)c', 'a{3}', '[0-9]+', 'a|b', '(a|b)*c', 'a{2}b', '[ab]?', '.a', 'a\\+'):
         b0 = list(ptxt.replace('\\\\', '\\').encode('latin-1'))
         meta = [i for i, c in enumerate(b0) if chr(c) in '()*+?{}|[].\\-']
@@ -1620,7 +1648,7 @@ def check_C04(tier, seed):
                   'a{10}': [[0x61] * n for n in (1, 9, 10, 11, 20)] + [[0x61] * 9 + [0x62]],
                   'x{101}': [[0x78] * n for n in (11, 100, 101, 102, 202)],
                   '[\\x80-\\xFF]+': [[0xc3, 0xa9], [0xff], [0x76], [0x80, 0xfe, 0x61, 0x4f]], '\\x4F': [[0x4f], [0x56], [0x4f, 0x4f]]}
-    pick += [j for j in good if j[1] in lxl.FAMILIES[-4:] and j not in pick]
+    pick += [j for j in good if j[1] in lxl.FAMILIES[-8:] and j not in pick]
     entries = []
     seen_pick = set()
     rec_by = {j[0]: r for j, r in zip(jobs, recs)}
@@ -1722,6 +1750,13 @@ def check_C06(tier, seed):
     pipeline.add_jobs(el, [[97] * 65600, [97] * 65534, [97] * 65535, [97] * 65536] + ([[98] * 70000 + [32] + [97] * 3, [97] * 131100] if tier != 'quick' else []), buf=0, verbose=False, ws=0, nl=0, tag='big')
     pipeline.add_jobs(el, [[97, 98, 32, 99], [32, 32], [97] * 300], buf=3, verbose=True, ws=0, nl=0, tag='s')
     entries.append(el)
+    # texts that END inside a multi-character lexeme (an arrow half written, a string literal left open): the lexer runs to
+    # the end of the buffer looking for the rest - nothing at or behind end() may be read, also not for the message
+    ep = pipeline.lex_entry('partial_at_end', [lxl.S('=>'), lxl.R('"[^"]*"'), lxl.R('[a-z]+'), lxl.S('<=>')])
+    pins = [sx for sx in gram.all_strings([ord(c) for c in '=>"a< '], 4)]
+    for b_ in (3, 0, 1):
+        pipeline.add_jobs(ep, pins if b_ == 3 else pins[::5], buf=b_, verbose=(b_ == 3), tag='p%d_' % b_)
+    entries.append(ep)
     res, work = prun.run(entries, 'C06', design_L=None, do_product=False, tlc_procs=4 if tier == 'quick' else 8, tlc_workers=4 if tier == 'quick' else 2)
     domain = {e.gid for e in entries}
     judge_traces(out, entries, res, {'oob', 'extra:oobread', 'extra:oobiter', 'extra:oobview', 'extra:oob', 'threw', 'partial-line'}, domain)
@@ -1935,6 +1970,10 @@ def check_C07(tier, seed):
         if any(not r for (_, r, _) in g.rules):
             # nullable symbols: every short text without slack (several empty reductions stacked on few characters)
             ins += [(s, 1, 1) for s in gram.all_strings(alpha, 2 if tier == 'quick' else 3)]
+        if g.name == 'left_rec':
+            # a text of 1500 characters (fixed stacks of more than 16 KiB): constant evaluation must not depend on the SIZE of the fixed stacks a long
+            # cstring_buffer brings with it (one accepted, one with a lexical error at the very end)
+            ins += [([alpha[0]] * 1500, 1, 1), ([alpha[0]] * 1500 + [ord("?")], 1, 1)]
         nlay = 0
         for s in gengram.sentences(g, rng, 8 if tier == 'quick' else 25, max_len=14):
             ins.append((s, 1, 1))
@@ -2022,7 +2061,7 @@ def check_C07(tier, seed):
     jobs = []
     for (e, cases, src) in tus:
         jobs.append(('g++', e, compile_job(['g++', '-std=c++17', '-fsyntax-only', '-fconstexpr-ops-limit=2000000000', '-fconstexpr-loop-limit=100000000', '-fconstexpr-depth=4096', '-I' + inc, src])))
-        jobs.append(('clang++', e, compile_job(['clang++', '-std=c++17', '-fsyntax-only', '-fconstexpr-steps=2000000000', '-fconstexpr-depth=4096', '-fbracket-depth=2048', '-I' + inc, src])))
+        jobs.append(('clang++', e, compile_job(['clang++', '-std=c++17', '-fsyntax-only', '-fconstexpr-steps=2000000000', '-fconstexpr-depth=4096', '-fbracket-depth=4096', '-I' + inc, src])))
         jobs.append(('build', e, compile_job(['g++', '-std=c++17', '-O1', '-DVERIF_RUNTIME_ONLY', '-I' + inc, src, '-o', src[:-4]])))
     rs = vlib.run_parallel([j[2] for j in jobs])
     ncases = sum(len(c) for _, c, _ in tus)
@@ -2395,7 +2434,7 @@ def check_C13(tier, seed):
         sents = gengram.sentences(e.g, rng, 5 if tier == 'quick' else 25, max_len=40)
         # blanks and newlines between the terms (the overloads without an options argument must mean the default options)
         wsin = [x for x in ws_inputs(e.g, 3, [32, 10], 400) if 32 in x or 10 in x][::7][:40 if tier == 'quick' else 200]
-        cats = (1, 2, 3, 4, 5, 6) if e.ctx else (0, 1, 2, 3, 4, 5, 6)       # 6: a context type that overloads unary &
+        cats = (1, 2, 3, 4, 5, 6, 7, 8) if e.ctx else (0, 1, 2, 3, 4, 5, 6, 7, 8)       # 6: a context type that overloads unary &; 7 / 8: a small trivially copyable context as const lvalue / rvalue
         for c in cats:
             pipeline.add_jobs(e, ins if c in (1, 2) else ins[::3], verbose=(c == 1), ctx=c, tag='c%d_' % c)
             pipeline.add_jobs(e, sents, verbose=False, ctx=c, tag='s%d_' % c)
@@ -2536,6 +2575,30 @@ def check_C14(tier, seed):
             st += st_f; tr += tr_f
             for d in fprobs[:3]:
                 out.violations.append({'summary': {'class': 'value lifecycle on the fixed-capacity value stack: ' + d['why'][0], 'run(buffer:input)': d['id'], 'detail': d['why']}, 'kind': 'moveonly'})
+    # a functor that THROWS: the exception is the caller's (it reaches the caller of parse()), and the values of the abandoned
+    # parse are destroyed exactly once on the way out - the same lifecycle automaton
+    tsrc = os.path.join(vlib.HARNESS, 'throwing.cpp')
+    texe = os.path.join(work, 'throwing')
+    tr_ = subprocess.run(['g++', '-std=c++17', '-O1', '-I' + os.path.join(vlib.REPO, 'include'), tsrc, '-o', texe], capture_output=True, text=True, timeout=600)
+    nthrow = 0
+    if tr_.returncode != 0:
+        out.violations.append({'summary': {'class': 'a parser whose functor may throw does not compile', 'where': tr_.stderr[:400]}, 'kind': 'moveonly'})
+    else:
+        tout = os.path.join(work, 'throwing.ndjson')
+        tr2 = subprocess.run([texe, tout], capture_output=True, text=True, timeout=120)
+        titems = vlib.read_ndjson_lenient(tout)
+        expect_throw = {it['id']: ('!' in it['id']) for it in titems}
+        if tr2.returncode != 0 or len(titems) < 11:
+            out.violations.append({'summary': {'class': 'an exception thrown by a rule functor does not reach the caller of parse()' if tr2.returncode == 70 else 'the throwing-functor run died',
+                                               'exit': tr2.returncode, 'input': None if len(titems) >= 11 else 'the one after ' + (titems[-1]['id'] if titems else '(none)'), 'stderr': tr2.stderr[-300:]}, 'kind': 'moveonly'})
+        for it in titems:
+            if it['threw'] != expect_throw[it['id']]:
+                out.violations.append({'summary': {'class': 'a functor threw and parse() %s' % ('returned normally' if not it['threw'] else 'threw although no functor did'), 'run': it['id']}, 'kind': 'moveonly'})
+        if titems:
+            tprobs, nthrow, st_t, tr_t, _ = values_items_check(titems, 'C14thr', tlc_procs=2)
+            st += st_t; tr += tr_t
+            for d in tprobs[:3]:
+                out.violations.append({'summary': {'class': 'value lifecycle when a functor throws: ' + d['why'][0], 'run': d['id'], 'detail': d['why']}, 'kind': 'moveonly'})
     # move-only value types (term values and functor results) must compile and work
     src = os.path.join(vlib.HARNESS, 'moveonly.cpp')
     exe = os.path.join(work, 'moveonly')
